@@ -151,7 +151,7 @@ CONFIG.pid = "C14"
 CONFIG.props_module = "KsiVerif.Props.C14"
 CONFIG.required_theorems = ["reassembly_independent_of_chunking", "same_stream_same_pdus", "delivered_plus_rest_is_stream",
                              "inbuf_bound", "complete_pdu_is_extracted", "wouldBlock_postpones", "accept_sends_next_bytes",
-                             "closeSocket_restarts_head", "send_error_closes", "sendLoop_writes_contiguous"]
+                             "closeSocket_restarts_head", "send_error_closes", "sendLoop_writes_contiguous", "sendLoop_done_sends_rest"]
 CONFIG.engines = [Engine("c14", ["exec_c14.c"], "drv_c14", gen), Engine("c14b", ["exec_c14b.c"], "drv_c14", gen_b)]
 CONFIG.rule = ("the real dispatch() of net_tcp_async.c on a scripted socket (libc calls of that translation unit redirected by macros): "
                "server streams of 1..12 PDUs (2..65539 bytes) with EVERY split point (one cut; two cuts for streams <= 24 bytes) for "
@@ -172,6 +172,7 @@ CONFIG.level_text = ("Kernel-checked for every stream and every chunking (any nu
                      "returns the state unchanged; an accepted send writes exactly the next unsent bytes; a send error closes; closing resets "
                      "the head request so the next connection starts with a whole request. Over ANY schedule of partial sends and would-blocks the send loop writes exactly the next k unsent "
                      "octets of the head request, contiguously, and advances its sent count by k (sendLoop_writes_contiguous, induction over "
-                     "the schedule). PARTIAL: the composition across requests and dispatch calls (whole-request framing per connection) "
+                     "the schedule), and it reports the request sent only after the socket has accepted every remaining octet "
+                     "(sendLoop_done_sends_rest). PARTIAL: the composition across requests and dispatch calls (whole-request framing per connection) "
                      "is checked by the oracle on every byte offset, not proved.")
 CONFIG.level_note = "Trusted: Lean kernel; hand-written model + differential tie through a socket simulator."
